@@ -39,13 +39,14 @@ func (m PublisherPrometheusMetricsDecorator) Publish(topic string, messages ...*
 	}
 	start := time.Now()
 
+	panicked := true
 	defer func() {
 		if publishAlreadyObserved(ctx) {
 			// decorator idempotency when applied decorator multiple times
 			return
 		}
 
-		if err != nil {
+		if err != nil || panicked {
 			labels[labelSuccess] = "false"
 		} else {
 			labels[labelSuccess] = "true"
@@ -57,7 +58,9 @@ func (m PublisherPrometheusMetricsDecorator) Publish(topic string, messages ...*
 		msg.SetContext(setPublishObservedToCtx(msg.Context()))
 	}
 
-	return m.pub.Publish(topic, messages...)
+	err = m.pub.Publish(topic, messages...)
+	panicked = false
+	return err
 }
 
 // Close decreases the total publisher count, closes the Prometheus HTTP server and calls wrapped Close.
